@@ -28,7 +28,7 @@ CHECKS = {
     "C15": dict(cat="model_checking", ref="§4 C15", tech="GF(2) rank / kernel-vector certificate computed by TLC (Gf2.tla) on the pool maps extracted from the code through the cfg(rngs_verif) hook; collisions replayed on the code; six maps incl. the variable-round fold path and one whole collection (next_u64); a non-affine map is decided only by a concrete collision confirmed on the code; special inputs / outputs and fixed points of the extracted maps are probed on the code",
                 text="The three pool maps (LFSR fold in the pool for fixed time, in the time for fixed pool, stir) are recorded from the real code on a complete basis plus random triples; TLC checks affinity on the triples and rank 64 of each linear part, which decides bijectivity for all 2^64 values; a rank deficiency is reported only together with a collision reproduced on the real code.",
                 note=TB + "; affinity of the code's maps is sampled; a non-affine map is reported as undecided (C12 rejects it)"),
-    "C16": dict(cat="model_checking", ref="§4 C16", tech="TLC exhaustive model checking of the hand-out machine JitterApi (tokens, <=3 instances, clone of clone, clone_from) with invariants AtMostOnce / PendingIsHighHalfOfOwnValue / FreshOrPendingHalf and a negative control; (thorough) Apalache proves an inductive invariant implying AtMostOnce / PendingIsHighHalfOfOwnValue for an unbounded number of collections; transition cover replayed on real JitterRng instances; Trace_Jitter executes the same plans on concrete pools",
+    "C16": dict(cat="model_checking", ref="§4 C16", tech="TLC exhaustive model checking of the hand-out machine JitterApi (tokens, <=3 instances, clone of clone, clone_from, set_rounds as a named stuttering action) with invariants AtMostOnce / PendingIsHighHalfOfOwnValue / FreshOrPendingHalf and a negative control; (thorough) Apalache proves an inductive invariant implying AtMostOnce / PendingIsHighHalfOfOwnValue for an unbounded number of collections; transition cover replayed on real JitterRng instances; Trace_Jitter executes the same plans on concrete pools",
                 text="All interleavings of next_u32/next_u64/fill_bytes/clone over up to three instances are explored on the abstract machine; the plans it uses are the ones the trace specification executes on concrete state, so every edge replayed on real JitterRng objects is validated for value, flag and readings consumed.",
                 note=TB + "; round counts 1,2,3 (quick) and 64,255 (thorough); fill_bytes(1..4) with a half pending is left open (C05 vs C16 wording)"),
     "C02": dict(cat="model_checking", ref="§4 C02", tech="TLA+ HC-128 in paper form (Hc128.tla) evaluated by TLC on recorded Hc128Rng traces (trace validation)",
@@ -46,7 +46,7 @@ CHECKS = {
     "C10": dict(cat="model_checking", ref="§4 C10", tech="TLC model checking of CloneEq (two instances of the API machine, == as the code defines it, negative control) + observational trace monitor Trace_Pair over clone / clone_from / == / lock-step schedules derived from TLC's state graph + pairwise == collision search over 60 000 (thorough 200 000) fresh seeds whose hits are driven in lock-step",
                 text="The model shows that the hand-written == (core and index, not the buffer) is a congruence on reachable pairs and fails without the index; on the real types clones are taken at buffer positions from the state graph and driven in lock-step with the original across refills and jumps, almost-equal pairs (one step / one seed bit / one perturbed serde field apart) are compared with ==, and the monitor rejects any observed divergence inside a class formed by clone or == true.",
                 note=TB + "; == is only required to be sound, not complete; seeds and histories are a corpus"),
-    "C11": dict(cat="model_checking", ref="§4 C11", tech="TLC model checking of CloneEq with Ser/De (negative control: half_used not serialized) + observational trace monitor Trace_Pair over snapshot/restore schedules (bincode and JSON) derived from TLC's state graph",
+    "C11": dict(cat="model_checking", ref="§4 C11", tech="TLC model checking of CloneEq with Ser/De (negative control: half_used not serialized) + observational trace monitor Trace_Pair over snapshot/restore schedules (bincode, JSON, and the snapshot as a field of a larger bincode record) derived from TLC's state graph",
                 text="Snapshots are taken at every sampled (index, half_used) state of IsaacRng/Isaac64Rng and after random histories/jumps of the 16 plain serializable types, restored through bincode and serde_json, and original, pre-snapshot clone and both restored generators are driven in lock-step across a refill; any divergence, failed deserialization or == false is rejected.",
                 note=TB + "; harness built with the serde features; seeds and histories are a corpus"),
     "C17": dict(cat="model_checking", ref="§4 C17", tech="trace validation against a TLA+ non-interference specification (Trace_Debug): Debug text as an uninterpreted function of history / public read position (index, half_used from the API machine ApiImpl), learned and enforced by TLC; native scan of the text over millions of seeds whose minority texts are replayed as ordinary cases",
